@@ -363,7 +363,20 @@ func collUniverses() []universe {
 		n := 128 + r.Intn(5)
 		return hexLit(append([]byte(base(r)[:n]), randBytes(r, []byte("ab"), 1, 2)...))
 	}
+	// letters followed by digit runs, and accented / case variants of few stems: the strings whose order depends on
+	// the collator's options and language (numeric ordering, å/ä/ö after z, case first …)
+	tailored := func(r *rand.Rand) string {
+		stem := pick(r, []string{"a", "b", "z", "ä", "ö", "å", "o", "A", "Z", "ae", "oe", "ü", "u"})
+		switch r.Intn(3) {
+		case 0:
+			return hexLit([]byte(stem + pick(r, []string{"1", "2", "9", "10", "11", "100", "9a", "10a", "02", "007"})))
+		case 1:
+			return hexLit([]byte(stem + pick(r, []string{"", "a", "z", "A", "ä", "ö"})))
+		}
+		return hexLit([]byte(pick(r, []string{"1", "2", "9", "10", "100", "20"}) + stem))
+	}
 	return []universe{
+		{name: "coll-tailored", next: tailored, probe: probe},
 		{name: "coll-script", next: script, probe: probe},
 		{name: "coll-long64", next: long64, probe: probe},
 		{name: "coll-long128", next: long128, probe: probe},
